@@ -11,6 +11,7 @@ import json, os, signal, sys
 from fractions import Fraction
 
 import sc3
+import sc3.base.main
 sc3.init(os.environ.get('SC3_MODE', 'nrt'))
 from sc3.base.stream import stream, StopStream
 import sc3.base.builtins as bi
@@ -53,7 +54,16 @@ class _RandomShim:
 
 _stm.random = _RandomShim()
 
+class Boom(BaseException):
+    """not an Exception: exercises the bare-except / finally paths (Routine.next)"""
+
+
+def _boom(x):
+    raise Boom()
+
+
 FUNCS = {
+    'boom': _boom,
     'inc': lambda x: x + 1,
     'dbl': lambda x: x * 2,
     'neg': lambda x: -x,
@@ -85,10 +95,14 @@ def dv(v):
         return [dv(x) for x in v[1]]
     if t == 't':
         return tuple(dv(x) for x in v[1])
+    if t == 'n':
+        return None
     raise ValueError(v)
 
 
 def ev(r):
+    if r is None:
+        return ['n']
     if isinstance(r, bool):
         return ['b', int(r)]
     if isinstance(r, int):
@@ -109,7 +123,25 @@ def reps(r):
     return INF if r == 'inf' else int(r)
 
 
+MEMO = None          # dict when identical sub-expressions must be ONE shared Python object
+ARGS = []            # (list object handed to a constructor, copy of its contents)
+
+
+def _lst(items):
+    ARGS.append((items, list(items)))
+    return items
+
+
 def build(e):
+    if MEMO is None:
+        return build1(e)
+    key = json.dumps(e)
+    if key not in MEMO:
+        MEMO[key] = build1(e)
+    return MEMO[key]
+
+
+def build1(e):
     k = e[0]
     if k == 'val':
         return dv(e[1])
@@ -124,17 +156,17 @@ def build(e):
         p.lst = []
         return p
     if k == 'Pseq':
-        return Pseq([B(x) for x in e[1]], reps(e[2]), e[3])
+        return Pseq(_lst([B(x) for x in e[1]]), reps(e[2]), e[3])
     if k == 'Pser':
-        return Pser([B(x) for x in e[1]], reps(e[2]), e[3])
+        return Pser(_lst([B(x) for x in e[1]]), reps(e[2]), e[3])
     if k == 'Pn':
         return Pn(B(e[1]), reps(e[2]))
     if k == 'Place':
         # a one-element sub-list stands for a plain (non-list) item when flagged
         items = []
         for sub, plain in zip(e[1], e[4]):
-            items.append(B(sub[0]) if plain else [B(x) for x in sub])
-        return Place(items, reps(e[2]), e[3])
+            items.append(B(sub[0]) if plain else _lst([B(x) for x in sub]))
+        return Place(_lst(items), reps(e[2]), e[3])
     if k == 'Plen':
         return Plen(B(e[1]), e[2])
     if k == 'Pdrop':
@@ -177,20 +209,20 @@ def build(e):
     if k == 'Pgeom':
         return Pgeom(dv(e[1]), B(e[2]), reps(e[3]))
     if k == 'Pswitch':
-        return Pswitch([B(x) for x in e[1]], B(e[2]))
+        return Pswitch(_lst([B(x) for x in e[1]]), B(e[2]))
     if k == 'Pswitch1':
-        return Pswitch1([B(x) for x in e[1]], B(e[2]))
+        return Pswitch1(_lst([B(x) for x in e[1]]), B(e[2]))
     if k == 'Ptuple':
-        return Ptuple([B(x) for x in e[1]], reps(e[2]))
+        return Ptuple(_lst([B(x) for x in e[1]]), reps(e[2]))
     if k == 'Pslide':
-        return Pslide([B(x) for x in e[1]], B(e[2]), B(e[3]), e[4], bool(e[5]), reps(e[6]))
+        return Pslide(_lst([B(x) for x in e[1]]), B(e[2]), B(e[3]), e[4], bool(e[5]), reps(e[6]))
     # seeded random patterns (implementation-only checks)
     if k == 'Pseed':
         return Pseed(B(e[1]), B(e[2]))
     if k == 'Prand':
-        return Prand([B(x) for x in e[1]], reps(e[2]))
+        return Prand(_lst([B(x) for x in e[1]]), reps(e[2]))
     if k == 'Pxrand':
-        return Pxrand([B(x) for x in e[1]], reps(e[2]))
+        return Pxrand(_lst([B(x) for x in e[1]]), reps(e[2]))
     if k == 'Pwhite':
         return Pwhite(B(e[1]), B(e[2]), reps(e[3]))
     raise ValueError('unknown expression kind %r' % (k,))
@@ -225,19 +257,27 @@ def snapshot(x, depth=0):
 
 
 def take(nextf, n):
-    vals = []
+    """n calls of nextf; values are encoded only AFTER the run (a yielded list that is mutated
+    later by the stream shows up as a wrong value)."""
+    raw, end = [], 'more'
     try:
         for _ in range(n):
-            vals.append(ev(nextf()))
-        return [vals, 'more']
+            raw.append(nextf())
     except StopIteration:          # StopStream is a StopIteration
-        return [vals, 'stop']
+        end = 'stop'
     except Timeout:
         raise                      # abort the whole case (the timer is one-shot)
     except RecursionError:
-        return [vals, 'err:RecursionError']
+        end = 'err:RecursionError'
+    except Boom:
+        end = 'err:Boom'
     except Exception as e:
-        return [vals, 'err:' + type(e).__name__]
+        end = 'err:' + type(e).__name__
+    return [raw, end]
+
+
+def enc(r):
+    return [[ev(x) for x in r[0]], r[1]]
 
 
 def stop_is_none(b):
@@ -245,9 +285,12 @@ def stop_is_none(b):
 
 
 def run_case(c):
+    global MEMO
     res = {'iter': None, 'next': None, 'all': None, 'two': None, 'mutated': False, 'again': None}
     n = c['n']
     del LOG[:]
+    del ARGS[:]
+    MEMO = {} if c.get('share') else None
     signal.setitimer(signal.ITIMER_REAL, c.get('timeout', 2.0))
     try:
         try:
@@ -256,13 +299,21 @@ def run_case(c):
             raise
         except Exception as e:
             r = [[], 'err:' + type(e).__name__]
-            res.update({'iter': r, 'next': r, 'again': r, 'two': [r, r], 'ctor_error': True})
+            res.update({'iter': r, 'next': r, 'again': r, 'embed': r, 'reset': r, 'two': [r, r], 'ctor_error': True})
             return res
         snap0 = snapshot(p)
         it = iter(p)
-        res['iter'] = take(lambda: next(it), n)
+        r_iter = take(lambda: next(it), n)
         s = stream(p)
-        res['next'] = take(lambda: s.next(), n)
+        r_next = take(lambda: s.next(), n)
+        # the __embed__ path of the same object (iter / stream use __stream__)
+        g = _stm.embed(p, None)
+        r_embed = take(lambda: next(g), n)
+        # reset: a partly used stream, reset, must start again
+        s3 = stream(p)
+        take(lambda: s3.next(), min(3, n))
+        s3.reset()
+        r_reset = take(lambda: s3.next(), n)
         # two interleaved streams of the SAME pattern object
         a, b = stream(p), stream(p)
         outs = [[[], 'more'], [[], 'more']]
@@ -274,11 +325,13 @@ def run_case(c):
             o[0].extend(r[0])
             if r[1] != 'more':
                 o[1] = r[1]
-        res['two'] = outs
         # a stream made after all the others must give the same sequence again
         it2 = iter(p)
-        res['again'] = take(lambda: next(it2), n)
+        r_again = take(lambda: next(it2), n)
+        res.update({'iter': enc(r_iter), 'next': enc(r_next), 'embed': enc(r_embed), 'reset': enc(r_reset),
+                    'two': [enc(outs[0]), enc(outs[1])], 'again': enc(r_again)})
         res['mutated'] = (snapshot(p) != snap0)
+        res['args_mutated'] = any(list(l) != cp or any(x is not y for x, y in zip(l, cp)) for l, cp in ARGS)
         if c.get('finite'):
             s2 = stream(p)
             try:
@@ -287,12 +340,20 @@ def run_case(c):
             except Timeout:
                 res['all'] = None
                 res['all_timeout'] = True
+            except Boom:
+                res['all'] = 'err:Boom'
             except Exception as e:
                 res['all'] = 'err:' + type(e).__name__
     except Timeout:
         res['timeout'] = True
     finally:
         signal.setitimer(signal.ITIMER_REAL, 0)
+        MEMO = None
+    # error-path cleanup: the current time thread must be the main one again
+    mm = sc3.base.main.main
+    if mm.current_tt is not mm.main_tt:
+        res['leaked_tt'] = repr(mm.current_tt)
+        mm.current_tt = mm.main_tt
     draws, bad = {}, False
     for seed, hist, a, b, r in LOG:
         if type(seed) is not int or stop_is_none(b):
@@ -324,6 +385,17 @@ def main():
             out.append(r)
         except Exception as e:
             out.append({'harness_error': type(e).__name__ + ': ' + str(e)[:200]})
+    # process-level state: the first cases again, after everything else ran
+    rerun_diff = []
+    for i, c in enumerate(cases[:25]):
+        if timeouts >= 8 or out[i].get('skipped') or out[i].get('timeout'):
+            break
+        try:
+            r = run_case(c)
+            if r.get('iter') != out[i].get('iter') or r.get('two') != out[i].get('two'):
+                rerun_diff.append(i)
+        except Exception:
+            rerun_diff.append(i)
     ctor = {}
     for cls, args in ((Pseq, ()), (Pser, ()), (Place, ()), (Ptuple, ()), (Pslide, ()), (Prand, ()), (Pxrand, ())):
         try:
@@ -331,7 +403,7 @@ def main():
             ctor[cls.__name__] = 'accepted'
         except Exception as e:
             ctor[cls.__name__] = type(e).__name__
-    json.dump({'out': out, 'ctor_empty': ctor}, open(sys.argv[2], 'w'))
+    json.dump({'out': out, 'ctor_empty': ctor, 'rerun_diff': rerun_diff}, open(sys.argv[2], 'w'))
 
 
 main()
